@@ -220,17 +220,34 @@ class Impl:
             reenter()
         d.addCallbacks(ok, bad)
 
+    def evt_arg(self, name, n):
+        """the event named by its name, or (every third time) by its Event object, as the docstrings allow"""
+        ev = getattr(self.proto, 'valid_events', {}).get(name)
+        return ev if (ev is not None and n % 3 == 0) else name
+
     def lose(self, clean):
         from twisted.python.failure import Failure
         from twisted.internet.error import ConnectionDone, ConnectionLost
-        self.proto.connectionLost(Failure(ConnectionDone() if clean else ConnectionLost()))
+        # the unclean reasons a transport reports: Twisted's ConnectionLost with and without a message, or the OS error itself
+        # (its arguments are a number and a text); which one is of no consequence (C03_reason_irrelevant)
+        self.n_lost = getattr(self, 'n_lost', 0) + 1
+        unclean = [ConnectionLost(), ConnectionLost('reset by peer'), ConnectionResetError(104, 'Connection reset by peer'),
+                   OSError(5, 'Input/output error')][(self.n_lost + len(self.log)) % 4]
+        self.proto.connectionLost(Failure(ConnectionDone() if clean else unclean))
 
     def submit(self, op):
         _, cid, text, hascb = op
         if any(ord(ch) > 127 for ch in text):
             text = text.encode('latin-1')         # submitted as bytes (str commands must be ASCII)
         if hascb:
-            d = self.proto.queue_command(text, lambda line, cid=cid: self.log.append('cb %d %s' % (cid, hexs(line))))
+            log = self.log
+
+            class Collector(list):
+                # a per-line callback that is a callable *object* — and, being an empty container, a falsy one
+                def __call__(self2, line):
+                    log.append('cb %d %s' % (cid, hexs(line)))
+            cb = Collector() if cid % 2 else (lambda line, cid=cid: self.log.append('cb %d %s' % (cid, hexs(line))))
+            d = self.proto.queue_command(text, cb)
         else:
             d = self.proto.queue_command(text)
         self.watch(d, cid)
@@ -316,9 +333,9 @@ class Impl:
                     self.performed.add((op[1], k2))
                     self.inner(op[2])
             elif k == 'addl':
-                self.watch(self.proto.add_event_listener(op[1], self.listener(op[2])), op[3])
+                self.watch(self.proto.add_event_listener(self.evt_arg(op[1], op[3]), self.listener(op[2])), op[3])
             elif k == 'reml':
-                self.watch(self.proto.remove_event_listener(op[1], self.listener(op[2])), op[3])
+                self.watch(self.proto.remove_event_listener(self.evt_arg(op[1], op[3] + 1), self.listener(op[2])), op[3])
         except Exception as e:
             self.log.append('exc Exception' if k in ('reml', 'addl') else 'exc ' + type(e).__name__)
         return self.log[start:]
